@@ -2,6 +2,7 @@
 text is copied verbatim on every run; `spec`, `loops`, `loop_proofs` only add
 specification/ghost text. See lib/extract.py for the allowed operations."""
 
+_ANYHOW_EARLY = (r"anyhow!\((?:[^()]|\([^()]*\))*\)", "VerifError {}", "error value: the message text of anyhow!(..) is dropped")
 _BUCKET_SPEC = lambda other, tag: f"""
     ensures
         is_bucket_of(self.node_id.0.0, {other}, r as int), // @C02/bucket_index/{tag}
@@ -54,6 +55,24 @@ UNITS = {
         r.node_id == node_id,
         forall|q: NodeId| !r.lists(q), // @C02/table/new_table_lists_nobody
         forall|b: int| 0 <= b < 256 ==> (#[trigger] r.buckets@[b]).max_size == k_value, // @C02/table/new_buckets_have_max_size_k
+"""},
+            {"impl": "KBucket", "fn": "add_node",
+             "closures": [{"at": r"\|n\|", "params": "|n: &NodeInfo|", "ret": "bool", "ensures": "ret == (n.id == node.id)"}],
+             "rewrite": [_ANYHOW_EARLY,
+                         (r"self\.nodes\.iter_mut\(\)\.find\(", "verif_iter_mut_find(&mut self.nodes, ", "`v.iter_mut().find(p)` renamed to a shim fn standing for that chain (contract: first element satisfying p, documented std behaviour); the closure stays in place"),
+                         (r"\}\) \{\n\s*\*existing = node;", "}, Ghost(|n: NodeInfo| n.id == node.id)) {\n            *existing = node;", "ghost predicate argument of the shim (specification only)")],
+             "spec": """
+    ensures
+        kb_add_post(*old(self), *final(self), node, r.is_ok()), // @C02/kbucket/known_peer_refreshed_in_place_unknown_appended_if_room_else_refused
+"""},
+            {"impl": "KBucket", "fn": "remove_node",
+             "closures": [{"at": r"\|n\|", "params": "|n: &NodeInfo|", "ret": "bool", "ensures": "ret == (n.id != *node_id)"}],
+             "rewrite": [(r"&n\.id != node_id", "n.id != *node_id", "comparison of two references written as comparison of the referents (`impl PartialEq<&B> for &A` delegates to the referents)"),
+                         (r"self\.nodes\.retain\(", "verif_retain(&mut self.nodes, ", "`v.retain(p)` renamed to a shim fn standing for that call (contract: keeps exactly the elements satisfying p, in order)"),
+                         (r"\}\);", "}, Ghost(|n: NodeInfo| n.id != *node_id));", "ghost predicate argument of the shim (specification only)")],
+             "spec": """
+    ensures
+        kb_remove_post(*old(self), *final(self), *node_id), // @C02/kbucket/exactly_the_entries_with_another_id_remain_in_order
 """},
             {"impl": "KBucket", "fn": "get_nodes",
              "spec": """
@@ -152,7 +171,7 @@ UNITS = {
         "search_test": "verif_search_c02",
         "trusted": [
             "verus external_body: DhtKey::distance ensures is_xor (same contract proved on the real fn by Kani c02_distance_is_xor)",
-            "verus external_body: KBucket::add_node / remove_node contracts (proved on the real fns by Kani c02_kbucket_add_contract_* / c02_kbucket_remove_contract_*, bounded bucket length)",
+            "ASSUMED shim contracts: v.iter_mut().find(p) yields a mutable reference to the first element satisfying p; v.retain(p) keeps exactly the elements satisfying p in order (documented std behaviour). KBucket::add_node / remove_node themselves are verified here for buckets of any length; the composed contracts are additionally checked on the real functions with the real std code by Kani c02_kbucket_add_contract_* / c02_kbucket_remove_contract_* (bounded bucket length)",
             "ASSUMED std contract (outlined tail of find_closest_nodes, text moved verbatim into external_body fn verif_sorted_prefix): slice::sort_by with `a.1.cmp(&b.1)` on [u8; 32] keys yields a permutation sorted ascending in lexicographic byte order; into_iter().take(n).map(|(node, _)| node).collect() yields the first min(n, len) first components in order",
             "ASSUMED: Option::filter (assume_specification), derived Clone of NodeInfo returns an equal value, derived PartialEq of NodeId is byte equality",
             "NodeInfo shim keeps only the `id` field (address/last_seen/capacity are not read by the extracted functions)",
@@ -248,7 +267,61 @@ UNITS = {
         final(self).sequence_history@.last().sequence == sequence && final(self).sequence_history@.last().message_hash == message_hash, // @C12/seq/applied_entry_recorded
         final(self).replay_attempts == old(self).replay_attempts && final(self).sequence_gaps == old(self).sequence_gaps, // @C12/seq/apply_frame
 """},
-            {"impl": "PeerCounter", "fn": "next_expected_sequence",
+            {"impl": "MonotonicCounterSystem", "fn": "validate_sequence",
+         "block": {"name": "verif_critical_section_validate", "of": "MonotonicCounterSystem::validate_sequence",
+                   "start": r"let validation_result = \{",
+                   "sig": "fn verif_critical_section_validate(&self, counters: &mut HashMap<UserId, PeerCounter>, user_id: &UserId, sequence: u64, message_hash: [u8; 32], timestamp: u64) -> SequenceValidationResult",
+                   "why": "`counters` stands for the map behind the RwLock write guard acquired at the top of the block"},
+         "drop": [r"let mut counters = self\.counters\.write\(\)\.map_err\(\|_\| \{\s*P2PError::Storage\(StorageError::LockPoisoned\(\s*\"write lock failed\"\.to_string\(\)\.into\(\),\s*\)\)\s*\}\)\?;\n"],
+         "rewrite": [(r"counters\s*\.entry\(user_id\.clone\(\)\)\s*\.or_insert_with\(PeerCounter::new\)", "verif_entry_or_new(counters, user_id.clone())",
+                      "callee renamed to a shim fn standing for `map.entry(k).or_insert_with(PeerCounter::new)` (contract: existing value or inserted PeerCounter::new(), assumed)")],
+         "spec": """
+    requires
+        old(counters)@.contains_key(*user_id) ==> old(counters)@[*user_id].last_valid_sequence < u64::MAX,
+    ensures
+        (r == SequenceValidationResult::Valid) ==> (sequence as int == last_of_peer(old(counters)@, *user_id) + 1
+            && !seen_by_peer(old(counters)@, *user_id, sequence, message_hash)), // @C12/system/accepted_only_for_the_next_number_never_for_a_seen_one
+        (r == SequenceValidationResult::Valid) ==> last_of_peer(final(counters)@, *user_id) == sequence, // @C12/system/acceptance_is_recorded_under_the_same_lock
+        (r != SequenceValidationResult::Valid) ==> (last_of_peer(final(counters)@, *user_id) == last_of_peer(old(counters)@, *user_id)
+            && (old(counters)@.contains_key(*user_id) ==> final(counters)@[*user_id] == old(counters)@[*user_id])), // @C12/system/every_other_submission_is_classified_without_changing_state
+        others_untouched(old(counters)@, final(counters)@, *user_id), // @C12/system/peers_never_affect_one_another
+"""},
+        {"impl": "MonotonicCounterSystem", "fn": "batch_update", "loop_count": 1,
+         "block": {"name": "verif_critical_section_batch", "of": "MonotonicCounterSystem::batch_update",
+                   "start": r"let mut results = Vec::with_capacity\(requests\.len\(\)\);\s*(?://[^\n]*\n\s*)*\{",
+                   "sig": "fn verif_critical_section_batch(&self, counters: &mut HashMap<UserId, PeerCounter>, requests: Vec<BatchUpdateRequest>, results: &mut Vec<BatchUpdateResult>)",
+                   "why": "`counters` stands for the map behind the RwLock write guard; `requests` / `results` are the enclosing function's locals"},
+         "drop": [r"let mut counters = self\.counters\.write\(\)\.map_err\(\|_\| \{\s*P2PError::Storage\(StorageError::LockPoisoned\(\s*\"write lock failed\"\.to_string\(\)\.into\(\),\s*\)\)\s*\}\)\?;\n"],
+         "rewrite": [(r"counters\s*\.entry\(request\.user_id\.clone\(\)\)\s*\.or_insert_with\(PeerCounter::new\)", "verif_entry_or_new(counters, request.user_id.clone())",
+                      "callee renamed to the entry/or_insert_with shim"),
+                     (r"for request in requests", "let ghost reqs = requests@;\n            for request in it: requests", "ghost copy of the request list + ghost iterator binder (specification only)")],
+         "loops": {0: """
+                invariant
+                    reqs == it.seq(), reqs.len() < usize::MAX, below_max(counters@, reqs.len() - it.index@),
+                    batch_inv(reqs, results@, counters@, it.index@),
+"""},
+         "loop_proofs": {0: "let ghost m0 = counters@; let ghost idx = it.index@;"},
+         "end_of_loop_body": {0: """proof {
+                    let uk = reqs[idx].user_id;
+                    assert forall|u: UserId| counters@.contains_key(u) implies (#[trigger] counters@[u]).last_valid_sequence + (reqs.len() - idx - 1) < u64::MAX by {
+                        if u != uk { assert(m0.contains_key(u) && counters@[u] == m0[u]); }
+                        else {
+                            assert(counters@[uk].last_valid_sequence <= pc0.last_valid_sequence + 1);
+                            assert(m0.contains_key(uk) ==> pc0 == m0[uk]);
+                            assert(!m0.contains_key(uk) ==> pc0.last_valid_sequence == 0);
+                        }
+                    }
+                }"""},
+         "insert_after": [(r"let peer_counter = verif_entry_or_new\(counters, request\.user_id\.clone\(\)\);", None, "let ghost pc0 = *peer_counter;")],
+         "spec": """
+    requires
+        old(results)@.len() == 0, below_max(old(counters)@, requests@.len() as int), requests@.len() < usize::MAX,
+    ensures
+        batch_inv(requests@, final(results)@, final(counters)@, requests@.len() as int),
+        forall|i: int, j: int| 0 <= i < j < requests@.len() && (#[trigger] requests@[i]).user_id == (#[trigger] requests@[j]).user_id && requests@[i].sequence == requests@[j].sequence
+            ==> !(final(results)@[i].applied && final(results)@[j].applied), // @C12/system/same_peer_and_number_within_one_batch_accepted_at_most_once
+"""},
+        {"impl": "PeerCounter", "fn": "next_expected_sequence",
              "spec": """
     requires
         self.last_valid_sequence < u64::MAX,
@@ -262,6 +335,9 @@ UNITS = {
             "verus external_body: current_timestamp() < 2^48 (clock; machine arithmetic on time does not overflow)",
             "verus precondition: last_valid_sequence < u64::MAX (fewer than 2^64 accepted numbers; `last + 1` would overflow)",
             "validate_sequence_internal takes &PeerCounter: that it changes no state is enforced by the Rust type system",
+            "block outlining: the critical section of validate_sequence (the block holding the RwLock write guard) is verified as a function of the guarded map; that the guard serialises tasks is the contract of std::sync::RwLock (assumed); the lock-acquisition statement is dropped",
+            "preconditions of the batch critical section: the request vector has fewer than usize::MAX elements (true of every Vec of non-zero-sized elements) and every tracked peer has room for batch-length more accepts before u64::MAX (fewer than 2^64 accepts per peer)",
+            "ASSUMED shim contract: map.entry(k).or_insert_with(PeerCounter::new) returns the existing value or a freshly inserted PeerCounter::new(); HashMap via vstd (obeys_key_model::<UserId> assumed)",
         ],
     },
 }
@@ -371,6 +447,7 @@ UNITS["ipdiv"] = {
 """},
     ],
     "paired_kani": ["c13_v6_can_accept_iff_below_caps", "c13_v4_can_accept_iff_below_caps"],
+    "search_test": "verif_search_c13",
     "trusted": [
         "ASSUMED dependency contract: lru::LruCache peek/get/put/pop behave as a finite map below capacity (verus/ipdiv.spec.rs); the lru crate is not verified; eviction at the 50k bound is outside the property's qualifier",
         "ASSUMED: std::cmp::max/min on usize; Option<&T>::copied (assume_specification in verus/ipdiv.spec.rs)",
@@ -460,6 +537,8 @@ UNITS["inbound"] = {
         "WireMessage": (None, {"protocol": "String", "data": "Vec<u8>", "from": "String", "timestamp": "u64"}),
         "DhtRecord": ("src/placement/dht_records.rs", {}),
         "DhtNetworkManager": ("src/dht_network_manager.rs", {}),
+        "TransportHandle": ("src/transport_handle.rs", {}),
+        "RequestResponseEnvelope": (None, {"message_id": "String", "is_response": "bool", "payload": "Vec<u8>"}),
     },
     "enums": ["P2PEvent"],
     "consts": {"MAX_RECORD_SIZE": ("src/placement/dht_records.rs", r"([0-9_]+)"),
@@ -489,6 +568,14 @@ UNITS["inbound"] = {
          "spec": """
     ensures
         r matches Ok(b) ==> b@.len() <= 512, // @C05/record/serialized_record_is_at_most_512_bytes
+"""},
+        {"impl": "TransportHandle", "fn": "parse_request_envelope", "src": "src/transport_handle.rs",
+         "spec": """
+    ensures
+        r.is_some() == decoded::<RequestResponseEnvelope>(data@).is_some(), // @C05/envelope/yields_a_value_exactly_when_the_bytes_decode
+        r matches Some(t) ==> t.0 == decoded::<RequestResponseEnvelope>(data@).unwrap().message_id
+            && t.1 == decoded::<RequestResponseEnvelope>(data@).unwrap().is_response
+            && t.2 == decoded::<RequestResponseEnvelope>(data@).unwrap().payload, // @C05/envelope/fields_come_from_the_decoded_envelope
 """},
         {"impl": "DhtNetworkManager", "fn": "validate_put_value_size", "src": "src/dht_network_manager.rs",
          "drop_macros": _LOGMACROS, "erase_errors": ["P2PError::"],
@@ -843,11 +930,119 @@ UNITS["cgv"] = {
 """},
     ],
     "paired_kani": [],
+    "search_test": "verif_search_c15",
     "trusted": [
         "ASSUMED float prelude (verus/float.spec.rs): IEEE-754 operators on f64 are deterministic total functions of their operands; `x as f64` a function of x",
         "ASSUMED callee contracts: count_confirming_regions == number of distinct known regions among confirming witnesses (HashSet chain, not verified); detect_collusion_indicators == collusion_flag (uninterpreted), false below 3 witnesses (proved on the real fn by Kani c15_collusion_contract_*, bounded); is_attack_mode reads the AtomicBool",
         "ASSUMED shim contracts: xs.iter().filter(p).collect() / .count() yield the elements satisfying p in order / their number (documented std behaviour); the closures themselves are verified",
         "precondition responses.len() <= usize::MAX (true of every Rust slice; Verus does not know it)",
         "struct shims omit fields no extracted function reads (peer_id, received_at, validation_duration, validated_at, ...); statements writing validation_duration dropped",
+    ],
+}
+
+
+UNITS["mgr"] = {
+    "property": "C02",
+    "src": "src/dht_network_manager.rs",
+    "spec": "verus/mgr.spec.rs",
+    "shims": {
+        "DHTNode": (None, {"peer_id": "String", "distance": "Option<Vec<u8>>", "cached_dht_key": "Option<DhtKey>"}),
+        "DhtNetworkManager": (None, {}),
+    },
+    "items": [
+        {"impl": "DhtNetworkManager", "fn": "compare_node_distance",
+         "rewrite": [(r"\.cmp\(&b_key\.distance", ".verif_lex_cmp(&b_key.distance", "callee renamed to a shim method whose body is `<[u8; 32] as Ord>::cmp` (contract: lexicographic byte order, assumed)")],
+         "insert_before": [(r"match \(a_key_ref, b_key_ref\)", None, "")],
+         "spec": """
+    ensures
+        r == rank_cmp(a, b, *key), // @C02/reply/nodes_are_ranked_by_ascending_xor_distance_unusable_ids_last
+"""},
+        {"impl": "DhtNetworkManager", "fn": "filter_response_nodes",
+         "closures": [{"at": r"\|node\|", "params": "|node: &DHTNode|", "ret": "bool", "ensures": "ret == (node.peer_id@ != requester_peer_id@)"}],
+         "rewrite": [
+             (r"candidate_nodes\s*\.into_iter\(\)\s*\.filter\(", "verif_into_filter_collect(candidate_nodes, ", "iterator chain `v.into_iter().filter(p).collect()` renamed to a shim fn whose body is that chain (contract: documented std behaviour); the closure stays in place"),
+             (r"\)\s*\.collect\(\)", ", Ghost(|n: DHTNode| n.peer_id@ != requester_peer_id@))", "end of the renamed chain + ghost predicate argument (specification only)"),
+         ],
+         "spec": """
+    ensures
+        r@ == candidate_nodes@.filter(|n: DHTNode| n.peer_id@ != requester_peer_id@), // @C02/reply/only_the_requester_is_dropped_order_kept
+"""},
+    ],
+    "paired_kani": [],
+    "trusted": [
+        "verus external_body: DhtKey::distance ensures is_xor (proved on the real fn by Kani c02_distance_is_xor); DhtKey::from_bytes stores the bytes",
+        "ASSUMED: <[u8; 32] as Ord>::cmp is the lexicographic byte order (shim verif_lex_cmp); parse_peer_id_to_key is a function of the peer id string; String != compares the character sequences (vstd)",
+        "ASSUMED shim contract: v.into_iter().filter(p).collect() keeps exactly the elements satisfying p, in order (documented std behaviour); the closure itself is verified",
+        "DHTNode shim omits address/reliability (not read by the extracted functions)",
+    ],
+}
+
+
+UNITS["select"] = {
+    "property": "C16",
+    "src": "src/dht/trust_peer_selector.rs",
+    "spec": "verus/select.spec.rs",
+    "preludes": ["verus/float.spec.rs"],
+    "shims": {
+        "TrustSelectionConfig": (None, {"trust_weight": "f64", "min_trust_threshold": "f64", "exclude_untrusted": "bool"}),
+        "TrustAwarePeerSelector": (None, {"config": "TrustSelectionConfig", "storage_config": "TrustSelectionConfig"}),
+        "NodeInfo": ("src/dht/core_engine.rs", {"id": "NodeId"}),
+    },
+    "const_items": [("src/dht/trust_peer_selector.rs", "DISTANCE_DAMPENING_FACTOR")],
+    "items": [
+        {"impl": "TrustSelectionConfig", "fn": "for_storage",
+         "spec": """
+    ensures
+        r.exclude_untrusted && r.min_trust_threshold == 0.2f64, // @C16/select/storage_configuration_excludes_below_the_0_2_floor
+"""},
+        {"impl": "TrustAwarePeerSelector", "fn": "compute_score",
+         "rewrite": [_F64_CAST, (r"let alpha = config\.trust_weight;", "let alpha = verif_f64(config.trust_weight);",
+                                 "f64 field read wrapped in the verified identity fn verif_f64 (trigger-matching workaround, see float prelude)")],
+         "spec": """
+    ensures
+        r == score_of(*key, *node, trust, config),
+"""},
+        {"impl": "TrustAwarePeerSelector", "fn": "select_peers_with_config",
+         "closures": [{"at": r"\|node\|", "occ": 0, "params": "|node: &NodeInfo|", "ret": "Option<Scored>",
+                       "ensures": "ret == sel_entry(self, *key, config, *node)"}],
+         "rewrite": [
+             (r"candidates\s*\.iter\(\)\s*\.filter_map\(", "verif_filter_map_collect(candidates, ", "iterator chain `xs.iter().filter_map(f).collect()` renamed to a shim fn whose body is that chain (contract: documented std behaviour); the closure stays in place"),
+             (r"\)\s*\.collect\(\);", ", Ghost(|n: NodeInfo| sel_entry(self, *key, config, n)));", "end of the renamed chain + ghost function argument (specification only)"),
+             (r"trust < config\.min_trust_threshold", "trust < verif_f64(config.min_trust_threshold)", "f64 field read wrapped in the verified identity fn verif_f64 (trigger-matching workaround)"),
+         ],
+         "insert_before": [(r"let trust = trust\.clamp", None, "proof { axiom_f_literals(); axiom_f_order(0.0f64, 0.5f64, 1.0f64); }"),
+                           (r"return vec!\[\];", None, "proof { lemma_empty_selection(self, config, candidates@, count, Seq::<NodeInfo>::empty()); }")],
+         "outline_tail": {
+             "start": r"scored\.sort_by\(",
+             "fn": "verif_sorted_selection", "params": "scored: Vec<Scored>, count: usize", "ret": "Vec<NodeInfo>",
+             "prelude": "    let mut scored = scored;",
+             "spec": "    ensures tail_post(scored@, count, r@)",
+             "call": """let ghost sc = scored@;
+        let r = verif_sorted_selection(scored, count);
+        proof { lemma_selection(self, *key, config, candidates@, sc, count, r@); }
+        r""",
+         },
+         "spec": """
+    ensures
+        selection_ok(self, config, candidates@, count, r@), // @C16/select/at_most_count_distinct_candidates_none_below_the_trust_floor
+"""},
+        {"impl": "TrustAwarePeerSelector", "fn": "select_peers",
+         "spec": """
+    ensures
+        selection_ok(self, &self.config, candidates@, count, r@), // @C16/select/query_selection_uses_the_query_configuration
+"""},
+        {"impl": "TrustAwarePeerSelector", "fn": "select_storage_peers",
+         "spec": """
+    ensures
+        selection_ok(self, &self.storage_config, candidates@, count, r@), // @C16/select/storage_selection_uses_the_storage_configuration
+"""},
+    ],
+    "paired_kani": [],
+    "search_test": "verif_search_c16_select",
+    "trusted": [
+        "ASSUMED float prelude (IEEE operators as deterministic functions; f64::clamp / is_nan / total_cmp specifications; clamp facts proved by Kani c16_float_clamp_facts)",
+        "ASSUMED: the trust provider answers as a function of the node id during one selection; xor_distance is a function of (key, id); DhtKey::distance is byte-wise XOR (Kani c02_distance_is_xor); derived Clone of NodeInfo",
+        "ASSUMED shim contract: xs.iter().filter_map(f).collect() yields the Some-results in order; ASSUMED contract of the outlined tail (sort_by permutes and orders by the comparator; into_iter().take(n).map().collect() keeps the first min(n, len) nodes) -- text moved verbatim, pinned by hash",
+        "struct shims: TrustAwarePeerSelector's Arc<T> provider is a ghost function; NodeInfo keeps only `id`",
     ],
 }
